@@ -7,6 +7,9 @@ CONSTANTS
   MaxT = 1
   Phases <- decode_t_Phases
   ShapeSet <- decode_t_Shapes
+  Signers = {"s1", "s2"}
+  Recipients = {"r1", "r2"}
+  Policies <- decode_t_Policies
   CfgName = "decode_t"
 INIT Init
 NEXT Next
